@@ -384,6 +384,12 @@ func (t *numTr) translateMethod(leanType, tn string, fd *ast.FuncDecl) (def stri
 					return tLeaf{".ok " + st.store[b.cell]}
 				}
 			}
+			// a struct wrapping one native integer (interpreter.UFix64Value{values.UFix64Value}); num2 builder
+			if f, ok := t.field(r, "UFix64Value"); ok {
+				if vi, ok := f.(vInt); ok {
+					return tLeaf{".ok " + vi.e}
+				}
+			}
 		}
 		if _, ok := v.(vNil); ok {
 			return tLeaf{".error .nilValue"} // a nil NumberValue is returned
